@@ -73,6 +73,11 @@ fn read(e: &impl Entry) -> Collect {
 fn md() -> Metadata<'static> {
     Metadata::new("vh", Level::INFO, None)
 }
+/// callsite metadata by label set: the labelled series come from a TRACE-level callsite (the
+/// bridge reports every registered metric, whatever level its callsite has)
+fn md_for(lab: u8) -> Metadata<'static> {
+    if lab == 0 { md() } else { Metadata::new("vh::detail", Level::TRACE, Some("vh::detail")) }
+}
 
 const NAMES: [&str; 2] = ["x", "y"];
 fn labels(i: usize) -> Vec<(&'static str, &'static str)> {
@@ -178,34 +183,34 @@ fn apply(w: &World, m: &mut Model, op: Op, emit_zero: bool) -> Option<(String, S
             None
         }
         Op::RegisterOnly(name, lab, _) => {
-            drop(w.rec.register_counter(&key(name as usize, lab as usize), &md()));
+            drop(w.rec.register_counter(&key(name as usize, lab as usize), &md_for(lab)));
             m.counters.entry((NAMES[name as usize].to_string(), lab)).or_insert(0);
             None
         }
         Op::Inc(name, lab, k) => {
-            w.rec.register_counter(&key(name as usize, lab as usize), &md()).increment(k as u64);
+            w.rec.register_counter(&key(name as usize, lab as usize), &md_for(lab)).increment(k as u64);
             *m.counters.entry((NAMES[name as usize].to_string(), lab)).or_insert(0) += k as u64;
             None
         }
         Op::Set(name, lab, v) => {
-            w.rec.register_gauge(&key(name as usize, lab as usize), &md()).set(v as f64);
+            w.rec.register_gauge(&key(name as usize, lab as usize), &md_for(lab)).set(v as f64);
             m.gauges.insert((NAMES[name as usize].to_string(), lab), v as f64);
             None
         }
         Op::GaugeAdd(name, lab, v) => {
-            w.rec.register_gauge(&key(name as usize, lab as usize), &md()).increment(v as f64);
+            w.rec.register_gauge(&key(name as usize, lab as usize), &md_for(lab)).increment(v as f64);
             *m.gauges.entry((NAMES[name as usize].to_string(), lab)).or_insert(0.0) += v as f64;
             None
         }
         Op::GaugeSub(name, lab, v) => {
-            w.rec.register_gauge(&key(name as usize, lab as usize), &md()).decrement(v as f64);
+            w.rec.register_gauge(&key(name as usize, lab as usize), &md_for(lab)).decrement(v as f64);
             *m.gauges.entry((NAMES[name as usize].to_string(), lab)).or_insert(0.0) -= v as f64;
             None
         }
         Op::RecMany(name, lab, which) => {
             let k = Key::from_parts(hname(name), labels(lab as usize).into_iter().map(|(k, v)| Label::new(k, v)).collect::<Vec<_>>());
             let (value, count, as_recorded) = if which == 0 { (20.0, 3usize, 20u32) } else { (5e9, 2usize, u32::MAX) };
-            let h = w.rec.register_histogram(&k, &md());
+            let h = w.rec.register_histogram(&k, &md_for(lab));
             let r = std::panic::catch_unwind(std::panic::AssertUnwindSafe(|| h.record_many(value, count)));
             for _ in 0..count {
                 m.hists.entry((hname(name), lab)).or_default().push(as_recorded);
@@ -217,7 +222,7 @@ fn apply(w: &World, m: &mut Model, op: Op, emit_zero: bool) -> Option<(String, S
         }
         Op::Rec(name, lab, v) => {
             let k = Key::from_parts(hname(name), labels(lab as usize).into_iter().map(|(k, v)| Label::new(k, v)).collect::<Vec<_>>());
-            w.rec.register_histogram(&k, &md()).record(v as f64);
+            w.rec.register_histogram(&k, &md_for(lab)).record(v as f64);
             m.hists.entry((hname(name), lab)).or_default().push(v as u32);
             None
         }
